@@ -272,9 +272,100 @@ def emit(v):
 
 # pinned: only what is NOT translated (harness/c09/translate.py regenerates the rest on every run)
 PINS = {
-    AUTH: ['b64encode', 'b64decode', 'AuthTicket.__init__', 'AuthTktCookieHelper.__init__', 'BadTicket'],
-    'pyramid/util.py': ['strings_differ', 'text_', 'bytes_', 'ascii_'],
+    AUTH: ['b64encode', 'b64decode', 'AuthTicket.__init__', 'AuthTktCookieHelper.__init__', 'BadTicket', 'BadTicket.__init__',
+           # the policy wrapper: a second public entry point to the same helper (also driven by the harness)
+           'AuthTktAuthenticationPolicy.__init__', 'AuthTktAuthenticationPolicy.unauthenticated_userid',
+           'AuthTktAuthenticationPolicy.remember', 'AuthTktAuthenticationPolicy.forget'],
+    'pyramid/util.py': ['strings_differ', 'text_', 'bytes_', 'ascii_', 'SimpleSerializer.loads', 'SimpleSerializer.dumps'],
 }
+
+
+# ---- what the primitive table relies on outside function bodies: module-level bindings and class bodies
+MODULE_BINDINGS = {
+    # name -> the one statement that may bind it at module level (ast.unparse of that statement, or a prefix for defs)
+    'base64': 'import base64', 'hashlib': 'import hashlib', 'time_mod': 'import time as time_mod',
+    'warnings': 'import warnings', 're': 'import re',
+    'utf_8_decode': 'from codecs import utf_8_decode, utf_8_encode', 'utf_8_encode': 'from codecs import utf_8_decode, utf_8_encode',
+    'quote': 'from urllib.parse import quote, unquote', 'unquote': 'from urllib.parse import quote, unquote',
+    'CookieProfile': 'from webob.cookies import CookieProfile',
+    'SimpleSerializer': 'from pyramid.util import SimpleSerializer, ascii_, bytes_, strings_differ, text_',
+    'ascii_': 'from pyramid.util import SimpleSerializer, ascii_, bytes_, strings_differ, text_',
+    'bytes_': 'from pyramid.util import SimpleSerializer, ascii_, bytes_, strings_differ, text_',
+    'strings_differ': 'from pyramid.util import SimpleSerializer, ascii_, bytes_, strings_differ, text_',
+    'text_': 'from pyramid.util import SimpleSerializer, ascii_, bytes_, strings_differ, text_',
+    'VALID_TOKEN': 'VALID_TOKEN = ', 'b64encode': 'def b64encode', 'b64decode': 'def b64decode',
+    'AuthTicket': 'class AuthTicket', 'BadTicket': 'class BadTicket', 'parse_ticket': 'def parse_ticket',
+    'calculate_digest': 'def calculate_digest', 'encode_ip_timestamp': 'def encode_ip_timestamp',
+    'AuthTktCookieHelper': 'class AuthTktCookieHelper', 'AuthTktAuthenticationPolicy': '@implementer(IAuthenticationPolicy)\nclass AuthTktAuthenticationPolicy',
+}
+# class bodies without their methods and docstrings (class-level attributes the table relies on; the two userid tables
+# are facts of their own), plus bases and decorators
+CLASS_SKELETONS = {
+    'AuthTicket': ('', []),
+    'BadTicket': ('Exception', []),
+    'AuthTktCookieHelper': ('', ['parse_ticket = staticmethod(parse_ticket)', 'AuthTicket = AuthTicket', 'BadTicket = BadTicket',
+                                 'now = None', 'userid_type_decoders = <dict>', 'userid_type_encoders = <dict>']),
+    'AuthTktAuthenticationPolicy': ('CallbackAuthenticationPolicy', []),
+}
+UTIL_BINDINGS = {'text_': 'def text_', 'bytes_': 'def bytes_', 'ascii_': 'def ascii_', 'strings_differ': 'def strings_differ',
+                 'SimpleSerializer': 'class SimpleSerializer', 'compare_digest': 'from hmac import compare_digest'}
+
+
+def _bound_names(st):
+    if isinstance(st, (ast.Import, ast.ImportFrom)):
+        return [(a.asname or a.name).split('.')[0] for a in st.names]
+    if isinstance(st, (ast.FunctionDef, ast.ClassDef, ast.AsyncFunctionDef)):
+        return [st.name]
+    if isinstance(st, (ast.Assign, ast.AugAssign, ast.AnnAssign)):
+        out = []
+        for t in (st.targets if isinstance(st, ast.Assign) else [st.target]):
+            out += [n.id for n in ast.walk(t) if isinstance(n, ast.Name)]
+        return out
+    if isinstance(st, (ast.If, ast.Try, ast.With, ast.For, ast.While)):
+        out = []
+        for ch in ast.walk(st):
+            if ch is not st and isinstance(ch, (ast.Import, ast.ImportFrom, ast.FunctionDef, ast.ClassDef, ast.Assign)):
+                out += _bound_names(ch)
+        return out
+    return []
+
+
+def check_bindings(tree, expected, where, problems):
+    seen = {}
+    for st in tree.body:
+        for nm in _bound_names(st):
+            if nm in expected:
+                seen.setdefault(nm, []).append(ast.unparse(st))
+    for nm, want in expected.items():
+        got = seen.get(nm, [])
+        if len(got) != 1 or not got[0].startswith(want):
+            problems.append('%s: module-level binding of %s is %s (the primitive table relies on `%s`)'
+                            % (where, nm, [g.split('\n')[0][:60] for g in got] or 'missing', want.split('\n')[-1]))
+    if any(isinstance(st, ast.ImportFrom) and any(a.name == '*' for a in st.names) for st in tree.body):
+        problems.append('%s: star import' % where)
+
+
+def check_skeletons(m, problems):
+    for cname, (bases, attrs) in CLASS_SKELETONS.items():
+        node = m.find(cname)
+        if node is None or not isinstance(node, ast.ClassDef):
+            problems.append('class %s missing' % cname)
+            continue
+        got_bases = ', '.join(ast.unparse(b) for b in node.bases)
+        got = []
+        for st in node.body:
+            if isinstance(st, (ast.FunctionDef, ast.AsyncFunctionDef)):
+                if st.decorator_list:
+                    problems.append('class %s: decorated method %s' % (cname, st.name))
+                continue
+            if isinstance(st, ast.Expr) and isinstance(st.value, ast.Constant) and isinstance(st.value.value, str):
+                continue
+            if isinstance(st, ast.Assign) and isinstance(st.value, ast.Dict):
+                got.append('%s = <dict>' % ast.unparse(st.targets[0]))
+            else:
+                got.append(ast.unparse(st))
+        if got_bases != bases or got != attrs or node.keywords:
+            problems.append('class %s: bases / class-level statements changed: (%s) %s' % (cname, got_bases, got))
 
 
 def facts(src):
@@ -286,6 +377,13 @@ def facts(src):
     summary.update({k: (val if not isinstance(val, list) or len(val) < 8 else '%d items' % len(val)) for k, val in v.items()})
     if soft:
         summary['facts kept at their default (covered by the regenerated program)'] = soft
+    try:
+        ma = F.Module(src, AUTH)
+        check_bindings(ma.tree, MODULE_BINDINGS, AUTH, problems)
+        check_skeletons(ma, problems)
+        check_bindings(F.Module(src, 'pyramid/util.py').tree, UTIL_BINDINGS, 'pyramid/util.py', problems)
+    except Exception as e:
+        problems.append('bindings / class skeleton check failed: %r' % (e,))
     gen, tproblems, tsummary, _ = translate.translate_tree(src)
     problems += tproblems
     summary.update(tsummary)
